@@ -76,7 +76,7 @@ def _codec_key(alg, kind, v):
         return "%s-encode-%s-%s" % (alg, "error" if kind == "encode-error" else "not-decodable", "empty" if not v["body"] else cls)
     if kind.startswith("corrupt-stream-accepted"):
         reason = kind.split(":", 1)[1]
-        if alg == "lz4" and _declared_lz4(v["stream"]) != len(v["out"]):
+        if alg == "lz4" and _declared_lz4(v["stream"]) != v["outlen"]:
             return "lz4-decode-corrupt-accepted-declared-length-not-checked"
         if cls == "truncated-in-match-length":
             return "lz4-decode-corrupt-accepted-truncated-in-match-length"
@@ -90,7 +90,7 @@ def _codec_what(alg, kind, v):
         return "%s Encode of a %d-byte body (%s) gave %s, which the reference decoder does not read back as the input%s" % (
             alg, len(v["body"]), v.get("cls"), _short(v["enc"]), (" (error %s)" % v["err"]) if v["err"] else "")
     return "%s Decode of %s [%s] returned %d bytes %s, error %r%s: %s" % (
-        alg, _short(v["stream"]), v.get("cls"), len(v["out"]), _short(v["out"], 12), v["err"],
+        alg, _short(v["stream"]), v.get("cls"), v["outlen"], _short(v["out"], 12), v["err"],
         (", PANIC " + v["panic"]) if v["panic"] else "", kind)
 
 
